@@ -39,6 +39,7 @@ type Op struct {
 	Stop  int    `json:"stop,omitempty"` // iter: accept this many elements, then return false
 	Re    int    `json:"re,omitempty"`   // iter: number of complete re-iterations
 	Btw   int    `json:"btw,omitempty"`  // iter: 1 = read-only queries (tree unchanged) are run between the passes
+	In    int    `json:"in,omitempty"`   // iter: nested pass over the same sequence value started from inside a pass (-1 complete, n>0 stopped after n elements)
 	Off   int    `json:"off,omitempty"`  // arena: offset of the key argument inside the caller's buffer
 	Spare int    `json:"spare,omitempty"`
 	Fill  int    `json:"fill,omitempty"` // arena: what the caller's buffer holds around the key (0 pattern, 1 zeros, 2 zero right after the key, 3 0xff)
@@ -61,7 +62,7 @@ func (t *Trace) Hash() uint64 {
 	h := sha256.New()
 	fmt.Fprintf(h, "%s|%s|%s|", t.Property, strings.Join(t.Kinds, ";"), t.Variant)
 	for _, op := range t.Ops {
-		fmt.Fprintf(h, "%d,%s,%x,%x,%d,%d,%s,%d,%d,%d,%d,%d;", op.T, op.Op, []byte(op.K), []byte(op.K2), op.V, op.N, op.M, op.Stop, op.Re+8*op.Btw, op.Off, op.Spare+16*op.Fill, op.G)
+		fmt.Fprintf(h, "%d,%s,%x,%x,%d,%d,%s,%d,%d,%d,%d,%d;", op.T, op.Op, []byte(op.K), []byte(op.K2), op.V, op.N, op.M, op.Stop, op.Re+8*op.Btw+64*(op.In+2), op.Off, op.Spare+16*op.Fill, op.G)
 	}
 	return binary.BigEndian.Uint64(h.Sum(nil)[:8])
 }
@@ -146,6 +147,9 @@ func showOp(kinds []Kind, op Op) string {
 		fmt.Fprintf(&sb, " stop=%d re=%d", op.Stop, op.Re)
 		if op.Btw != 0 {
 			sb.WriteString(" queries-between")
+		}
+		if op.In != 0 {
+			fmt.Fprintf(&sb, " nested=%d", op.In)
 		}
 		sb.WriteString("]")
 	default:
